@@ -81,6 +81,7 @@ def make_jobs(Job, tier, seed, prop):
         for i, sq in enumerate(seqs):
             J('n2-history-%s' % '-'.join(sq), hist(sq), 2)
         J('n2-history-reimport', [S, S, {'op': ['and', 'xor', 'restrict'], 'a': 0, 'b': 1}, {'op': 'reimport'}, {'op': ['or', 'iff'], 'a': 0, 'b': 1}], 2)
+        J('n2-history-serde-reimport', [S, S, {'op': ['and', 'restrict'], 'a': 0, 'b': 1}, {'op': 'serde_reimport'}, {'op': 'variable', 'var': 'sym'}, {'op': ['or', 'xor'], 'a': 0, 'b': 1}], 2)
     else:
         for o1 in ALL_OPS:
             for o2 in ALL_OPS:
@@ -89,6 +90,7 @@ def make_jobs(Job, tier, seed, prop):
             sq = [rng.choice(ALL_OPS) for _ in range(3)]
             J('n2-history3-%s-%d' % ('-'.join(sq), s), hist(sq), 2)
         J('n2-history-reimport', [S, S, {'op': ALL_OPS, 'a': 0, 'b': 1}, {'op': 'reimport'}, {'op': ALL_OPS, 'a': 0, 'b': 1}], 2)
+        J('n2-history-serde-reimport', [S, S, {'op': ALL_OPS, 'a': 0, 'b': 1}, {'op': 'serde_reimport'}, {'op': 'variable', 'var': 'sym'}, {'op': ALL_OPS, 'a': 0, 'b': 1}], 2)
         # n = 3, all pairs for the two central connectives
         for op in ('and', 'xor'):
             J('n3-pairs-%s' % op, [S, S, {'op': op, 'a': 0, 'b': 1}], 3)
